@@ -232,12 +232,15 @@ macro_rules! belt_resume {
 
 /// Buffered CFB: export (block, pos) at a symbolic BYTE cut, import with from_state, continue.
 macro_rules! buf_resume {
-    ($name:ident, $unw:expr, $ty:ident, $call:ident, $bs:ty, $b:expr, $l:expr) => {
+    ($name:ident, $unw:expr, $ty:ident, $call:ident, $bs:ty, $b:expr, $l:expr $(, $klo:expr)?) => {
         #[kani::proof]
         #[kani::unwind($unw)]
         pub fn $name() {
             const B: usize = $b;
             const L: usize = $l;
+            #[allow(unused_mut, unused_assignments)]
+            let mut klo: usize = 0;
+            $( klo = $klo; )?
             let c = UfE::<$bs, U1>::with_key(kani::any());
             let iv: [u8; B] = kani::any();
             let msg: [u8; L] = kani::any();
@@ -245,10 +248,10 @@ macro_rules! buf_resume {
             let mut m0 = cfb_mode::$ty::inner_iv_init(c.clone(), blk::<$bs>(&iv));
             m0.$call(&mut whole);
             let k: usize = kani::any();
-            kani::assume(k <= L);
+            kani::assume(k >= klo && k <= L);
             let mut buf = msg;
             let (s0, p0) = m0.get_state();
-            split_on!(k, 0, L, k_ => {
+            split_on!(k, klo, L, k_ => {
                 let mut m1 = cfb_mode::$ty::inner_iv_init(c.clone(), blk::<$bs>(&iv));
                 let (p1, p2) = buf.split_at_mut(k_);
                 m1.$call(p1);
@@ -268,9 +271,7 @@ macro_rules! buf_resume {
                 assert!(buf[i] == whole[i], "instance restored with from_state does not continue the stream");
                 i += 1;
             }
-            kani::cover!(k == B);
-            kani::cover!(k == B + 1);
-            kani::cover!(k == 0);
+            kani::cover!(k == klo);
             kani::cover!(k == L);
         }
     };
@@ -279,6 +280,11 @@ macro_rules! buf_resume {
 // ---- quick ----------------------------------------------------------------------------------
 resume_case!(cbc_enc_b2_w2_n3, 48, cbc::Encryptor, enc, true, K_CBC, U2, 2, U2, 2, U2, 3, U2, 2);
 resume_case!(cbc_dec_b2_w2_n3, 48, cbc::Decryptor, dec, false, K_CBC, U2, 2, U2, 2, U2, 3, U2, 2);
+resume_case!(cbc_enc_b2_w2_n3_b2b, 48, cbc::Encryptor, enc, true, K_CBC, U2, 2, U2, 2, U2, 3, U2, 2, true);
+resume_case!(cfb_enc_b2_w2_n3_b2b, 48, cfb_mode::Encryptor, enc, true, K_CBC, U2, 2, U2, 2, U2, 3, U2, 2, true);
+resume_case!(pcbc_enc_b2_w2_n3_b2b, 48, pcbc::Encryptor, enc, true, K_PCBC, U2, 2, U2, 2, U2, 3, U2, 2, true);
+resume_case!(ige_enc_b2_w2_n3_b2b, 48, ige::Encryptor, enc, true, K_IGE, U2, 2, U4, 4, U2, 3, U2, 2, true);
+resume_case!(cfb8_dec_b2_n4_b2b, 48, cfb8::Decryptor, dec, false, K_CFB8, U2, 2, U2, 2, U1, 4, U1, 1, true);
 resume_case!(cbc_dec_b2_w2_n3_b2b, 48, cbc::Decryptor, dec, false, K_CBC, U2, 2, U2, 2, U2, 3, U2, 2, true);
 resume_case!(cfb_dec_b2_w2_n3_b2b, 48, cfb_mode::Decryptor, dec, false, K_CBC, U2, 2, U2, 2, U2, 3, U2, 2, true);
 resume_case!(pcbc_dec_b2_w2_n3_b2b, 48, pcbc::Decryptor, dec, false, K_PCBC, U2, 2, U2, 2, U2, 3, U2, 2, true);
@@ -298,6 +304,9 @@ ctr_resume!(t_ctr128be_b16_w2_n3, 80, Ctr128BE, spec::CTR128BE, u128, U16, 16, U
 belt_resume!(belt_w2_n3, 80, U2, 3);
 buf_resume!(buf_enc_b2_l5, 48, BufEncryptor, encrypt, U2, 2, 5);
 buf_resume!(buf_dec_b2_l5, 48, BufDecryptor, decrypt, U2, 2, 5);
+buf_resume!(buf_dec_b1_l10_k8, 48, BufDecryptor, decrypt, U1, 1, 10, 8); // cuts after 8, 9, 10 whole blocks
+buf_resume!(t_buf_enc_b1_l10, 48, BufEncryptor, encrypt, U1, 1, 10);
+buf_resume!(t_buf_dec_b1_l10, 48, BufDecryptor, decrypt, U1, 1, 10);
 
 // ---- thorough -------------------------------------------------------------------------------
 resume_case!(t_cbc_enc_b4_w1_n4, 64, cbc::Encryptor, enc, true, K_CBC, U4, 4, U4, 4, U1, 4, U4, 4);
